@@ -99,7 +99,7 @@ CHECK_DEADLOCK FALSE
 def erralg_stage(run, selftest, which="C04"):
     q = run.tier == "quick"
     # 1. exhaustive design check + one REPLAY line per transition
-    cfg = EA_CFG.format(kinds='{"dup", "unknown"}', names='{"x"}', locs='{"a", "b"}', spans="{1, 2}",
+    cfg = EA_CFG.format(kinds='{"dup", "custom"}', names='{"x."}', locs='{"a", "b"}', spans="{1, 2}",
                         pool=3, leaves=3, maxloc=1, arity=3, ops=7 if q else 9)
     res = run.tlc("MC_ErrorAlgebra", cfg, "ea_exh", workers=4 if q else 8)
     run.require_tlc_ok(res, "ErrorAlgebra (exhaustive)")
@@ -115,8 +115,8 @@ def erralg_stage(run, selftest, which="C04"):
         selftest_replay(run, "erralg", res["out"], flip, "swap two flattened leaves")
     os.remove(res["out"])
     # 2. beyond the exhaustive bounds: random walks of the same spec, wider alphabet, all ten kinds
-    cfg = EA_CFG.format(kinds='{"custom", "dup", "missing", "unknown", "shape", "format", "type", "value"}',
-                        names='{"x", "y"}', locs='{"a", "b", "c"}', spans="{1, 2, 3}",
+    cfg = EA_CFG.format(kinds='{"custom", "dup", "missing", "unknown", "shape", "shapeexp", "format", "type", "value"}',
+                        names='{"x", "y."}', locs='{"a", "b", "c"}', spans="{1, 2, 3}",
                         pool=5, leaves=8, maxloc=3, arity=4, ops=40)
     res = run.tlc("MC_ErrorAlgebra", cfg, "ea_sim", workers=1, simulate=12 if q else 150, depth=30)
     run.exhaustive = False if not q else run.exhaustive
@@ -1205,6 +1205,7 @@ def c20(run, selftest=True):
         outs.append(res["out"])
     crate = os.path.join(vlib.VERIF, "c20crate")
     index = run.path("c20_index.json")
+    os.makedirs(os.path.join(crate, "src"), exist_ok=True)
     p = subprocess.run(["python3", os.path.join(vlib.VERIF, "tools", "gen_c20.py"), "--seed", str(vlib.seed()), "--max", str(360 if q else 4500),
                         "--out", os.path.join(crate, "src", "lib.rs"), "--index", index] + outs, stdout=subprocess.PIPE, stderr=subprocess.PIPE, text=True)
     if p.returncode != 0:
@@ -1214,7 +1215,7 @@ def c20(run, selftest=True):
         os.remove(o)
     if not os.path.exists(os.path.join(crate, "Cargo.lock")):
         import shutil
-        shutil.copy("/repo/Cargo.lock", os.path.join(crate, "Cargo.lock"))
+        shutil.copy(os.path.join(os.environ.get("VERIF_REPO", "/repo"), "Cargo.lock"), os.path.join(crate, "Cargo.lock"))
     b = subprocess.run(["cargo", "build", "--offline", "--message-format=short"], cwd=crate, env=dict(os.environ, CARGO_NET_OFFLINE="true"),
                        stdout=subprocess.PIPE, stderr=subprocess.STDOUT, text=True)
     idx = json.load(open(index))
